@@ -278,7 +278,8 @@ type c19Call struct {
 	Sent, Closed          int
 	Err                   string
 	Panic                 string
-}
+	CtxOK, OptsOK, ReqOK  bool // the stub handed the caller's context, options and request on to the channel
+	}
 
 type c19Reg struct {
 	Service    string
@@ -316,7 +317,13 @@ type call struct {
 	DescOfService                       bool
 	Sent, Closed                        int
 	Err, Panic                          string
+	CtxOK, OptsOK, ReqOK                bool
 }
+type ctxKey struct{}
+type sentinelOpt struct{ grpc.EmptyCallOption }
+var theOpt = &sentinelOpt{}
+var theReq interface{}
+func optsOK(opts []grpc.CallOption) bool { return len(opts) == 1 && opts[0] == grpc.CallOption(theOpt) }
 type reg struct {
 	Service    string
 	SameDesc   bool
@@ -332,14 +339,16 @@ func (f *fakeCS) Header() (metadata.MD, error) { return nil, nil }
 func (f *fakeCS) Trailer() metadata.MD         { return nil }
 func (f *fakeCS) CloseSend() error             { f.c.Closed++; return nil }
 func (f *fakeCS) Context() context.Context     { return context.Background() }
-func (f *fakeCS) SendMsg(m interface{}) error  { f.c.Sent++; return nil }
+func (f *fakeCS) SendMsg(m interface{}) error  { f.c.Sent++; f.c.ReqOK = theReq != nil && m == theReq; return nil }
 func (f *fakeCS) RecvMsg(m interface{}) error  { return nil }
 func (r *recCh) Invoke(ctx context.Context, method string, req, reply interface{}, opts ...grpc.CallOption) error {
 	r.cur.Shape, r.cur.Path = "invoke", method
+	r.cur.CtxOK, r.cur.OptsOK, r.cur.ReqOK = ctx.Value(ctxKey{}) == "v", optsOK(opts), theReq != nil && req == theReq
 	return nil
 }
 func (r *recCh) NewStream(ctx context.Context, desc *grpc.StreamDesc, method string, opts ...grpc.CallOption) (grpc.ClientStream, error) {
 	r.cur.Shape, r.cur.Path = "newstream", method
+	r.cur.CtxOK, r.cur.OptsOK = ctx.Value(ctxKey{}) == "v", optsOK(opts)
 	r.cur.StreamIndex = -1
 	for i := range r.desc.Streams {
 		if desc == &r.desc.Streams[i] {
@@ -370,12 +379,16 @@ func callMethod(client interface{}, file, svc, method, goName string, desc *grpc
 		return
 	}
 	t := m.Type()
-	args := []reflect.Value{reflect.ValueOf(context.Background())}
+	args := []reflect.Value{reflect.ValueOf(context.WithValue(context.Background(), ctxKey{}, "v"))}
+	theReq = nil
 	for i := 1; i < t.NumIn(); i++ {
 		if t.IsVariadic() && i == t.NumIn()-1 {
+			args = append(args, reflect.ValueOf(grpc.CallOption(theOpt)))
 			break
 		}
-		args = append(args, reflect.New(t.In(i).Elem()))
+		in := reflect.New(t.In(i).Elem())
+		theReq = in.Interface()
+		args = append(args, in)
 	}
 	out := m.Call(args)
 	if e := out[len(out)-1]; !e.IsNil() {
@@ -641,6 +654,10 @@ func checkC19(e *core.Env) {
 				e.Violate(sig+"/server-stream-protocol", fmt.Sprintf("%s: server-streaming stub sent %d messages and closed %d times (want 1/1)", wantPath, c.Sent, c.Closed), w)
 			case m.CS && (c.Sent != 0 || c.Closed != 0):
 				e.Violate(sig+"/client-stream-protocol", fmt.Sprintf("%s: client-streaming stub sent/closed on its own (%d/%d)", wantPath, c.Sent, c.Closed), w)
+			case !c.CtxOK || !c.OptsOK:
+				e.Violate(sig+"/forwarding", fmt.Sprintf("%s: the stub did not hand the caller's context (ok=%v) / call options (ok=%v) on to the channel", wantPath, c.CtxOK, c.OptsOK), w)
+			case !m.CS && !c.ReqOK:
+				e.Violate(sig+"/forwarding", fmt.Sprintf("%s: the stub did not send the caller's request object", wantPath), w)
 			}
 		}
 		if len(res.Calls) != len(exp) {
